@@ -110,6 +110,12 @@ add("C16", "pysym",
     "delay distributions are stand-ins exposing quantile/mean; one set_delay per node/connection after construction; expected delays on the 1us grid",
     "DESIGN.md §6 C16")
 
+add("C14", "pysym",
+    "bounded symbolic execution of the unmodified Graph.stack/__getitem__/filter, EpisodeRecord.to_graph/filter, ExperimentRecord.to_graph/_padded_stack and utils.to_networkx_graph on numpy object arrays of solver symbols (lengths, subsets, flags enumerated; vertex/edge existence patterns explored by solver-checked forking); z3 decides the cell-wise and existence obligations; counterexamples replayed with concrete numbers",
+    "For <= 3(4) ragged episodes of length <= 3(4) and all cell values: stacking pads with -1 and keeps every original cell, indexing a stack returns the original episode, record->graph conversion is field-for-field, to_networkx_graph creates a vertex iff seq != -1 and an edge iff both ends are valid (never for padded entries), and Graph/EpisodeRecord.filter keep precisely the selected nodes and the connections among them for every subset of 3 nodes and both flags.",
+    "most obligations are structural (cell identity): the solver generalises over cell values and enumerates existence patterns; graph contract for to_networkx_graph (gap-free seq, padding at the tail, edges name existing vertices) assumed",
+    "DESIGN.md §6 C14")
+
 def main():
     checks = []
     for pid in sorted(CHECKS):
